@@ -308,8 +308,9 @@ where
 }
 
 /// indices far beyond the buffer: load -> None, store -> Err and no byte changes, nth -> None.
-/// `index * bytes_per_pixel` is computed unchecked by the library (load_store.rs:73,96,106,137,146,167):
-/// outside usize it panics (overflow checks) or wraps (release); that failure is reported with its class.
+/// `index * bytes_per_pixel` is `index.checked_mul(N)` (load_store.rs): an offset outside usize must be
+/// rejected like any other index beyond the buffer (before the repair it wrapped / panicked); a failure
+/// of that kind is reported with its class.
 fn p_far<R: RawData, O: DataOrder>(bpp: usize, idx: usize, bytes: &[&str]) -> String
 where
     R::Storage: Into<u32>,
